@@ -1,8 +1,13 @@
 ----------------------------- MODULE TraceFetch -----------------------------
 (***************************************************************************)
 (* Binding B for C16: each event is one real multi-source pprof run with a *)
-(* gating, fault-injecting Fetcher (and transport): which sources were     *)
-(* made to fail, the order in which the merged result lists the sources    *)
+(* gating, fault-injecting Fetcher (and transport): the class of every     *)
+(* source as in Fetch.tla ("ok", "fail", "errbody": answered with an error *)
+(* status and a profile as the body, "remote": answered with 200 and a     *)
+(* profile through the shared transport) and whether the transport's       *)
+(* one-time initialisation could succeed (tlsok); the outcome of a source  *)
+(* is Fetch.tla's Ok: a function of its class and of tlsok alone.  Then    *)
+(* the order in which the merged result lists the sources                  *)
 (* (read off the comments each source contributes), which sources were     *)
 (* reported as errors, whether the run failed.  The chunk size of the real *)
 (* code (128) is crossed by runs with 127..300 sources.                    *)
@@ -10,11 +15,17 @@
 EXTENDS Integers, Sequences, FiniteSets, TLC, SequencesExt, Json
 Trace == ndJsonDeserialize("trace.ndjson")
 VARIABLES l, bad
-OkIdx(v) == SetToSortSeq({i \in DOMAIN v : v[i]}, <)
-Want(e) == [k \in 1..Len(OkIdx(e.srcok)) |-> [g |-> "src", i |-> OkIdx(e.srcok)[k]]]
-           \o [k \in 1..Len(OkIdx(e.baseok)) |-> [g |-> "base", i |-> OkIdx(e.baseok)[k]]]
-WantErrs(e) == {[g |-> "src", i |-> i] : i \in {x \in DOMAIN e.srcok : ~e.srcok[x]}} \cup {[g |-> "base", i |-> i] : i \in {x \in DOMAIN e.baseok : ~e.baseok[x]}}
-ShouldFail(e) == OkIdx(e.srcok) = <<>> \/ (Len(e.baseok) > 0 /\ OkIdx(e.baseok) = <<>>)
+OutClasses == {"ok", "fail", "errbody", "remote"}
+Ok(c, tlsok) == c = "ok" \/ (c = "remote" /\ tlsok)
+OkSet(v, tlsok) == {i \in DOMAIN v : Ok(v[i], tlsok)}
+OkIdx(v, tlsok) == SetToSortSeq(OkSet(v, tlsok), <)
+SrcOk(e) == OkIdx(e.srcout, e.tlsok)
+BaseOk(e) == OkIdx(e.baseout, e.tlsok)
+Want(e) == [k \in 1..Len(SrcOk(e)) |-> [g |-> "src", i |-> SrcOk(e)[k]]]
+           \o [k \in 1..Len(BaseOk(e)) |-> [g |-> "base", i |-> BaseOk(e)[k]]]
+WantErrs(e) == {[g |-> "src", i |-> i] : i \in DOMAIN e.srcout \ OkSet(e.srcout, e.tlsok)} \cup {[g |-> "base", i |-> i] : i \in DOMAIN e.baseout \ OkSet(e.baseout, e.tlsok)}
+ShouldFail(e) == SrcOk(e) = <<>> \/ (Len(e.baseout) > 0 /\ BaseOk(e) = <<>>)
+WellFormed(e) == e.tlsok \in BOOLEAN /\ (\A i \in DOMAIN e.srcout : e.srcout[i] \in OutClasses) /\ (\A i \in DOMAIN e.baseout : e.baseout[i] \in OutClasses)
 Failed(e) ==
   LET p == [ fails   |-> e.failed = ShouldFail(e),
              merged  |-> ~e.failed => e.merged = Want(e),                       \* exactly the succeeded ones, in command-line order
@@ -23,6 +34,7 @@ Failed(e) ==
   IN {f \in DOMAIN p : ~p[f]}
 Init == l = 1 /\ bad = {}
 Step == /\ l <= Len(Trace) /\ l' = l + 1
+        /\ Assert(WellFormed(Trace[l]), <<"malformed event", l>>)      \* a problem of the harness, not a verdict
         /\ LET fl == Failed(Trace[l]) IN
              /\ bad' = IF fl = {} THEN bad ELSE bad \cup {l}
              /\ (IF fl = {} THEN TRUE ELSE PrintT(<<"VERIF-WHY", l, fl>>))
